@@ -763,9 +763,8 @@ func (ex *Exec) zeroBacking(r Term, et types.Type) {
 	for i, l := range leavesOf(et) {
 		ls := leafSortFix(ex, l)
 		key := elemKey(et, nil) + l.path
-		h := ex.heapGet(key, ArrSort(SInt, ArrSort(SInt, ls)))
 		c := Term{fmt.Sprintf("((as const %s) %s)", ArrSort(SInt, ls), zs[i].S), ArrSort(SInt, ls)}
-		ex.heapSet(key, Sto(h, r, c))
+		ex.hStoreRow(key, ArrSort(SInt, ArrSort(SInt, ls)), r, c)
 	}
 }
 
